@@ -1082,10 +1082,12 @@ Lemma wf_do_hello xr h c cn hl :
 Proof.
   intros W Hc. unfold do_hello.
   assert (Wexp : WFg xr none1 (set_conns h (aset (h_conns h) c (mkconn (c_addr cn) None true)))) by now apply wf_set_conn_nosess.
-  destruct hl as [b u rej|b tok f d|i].
+  destruct hl as [b u rej|b u t|b tok f d|i].
   - (* v1 *)
     destruct (h_nb h <=? b); [exact Wexp|]. destruct rej; [exact Wexp|].
     destruct (register h c cn b KClient u) as [h1 o1] eqn:Hr. cbn [fst]. rewrite (fst_eq _ _ _ Hr). now apply wf_register.
+  - (* v2 *)
+    destruct (v2_check (h_nb h) b t); [now apply wf_register|exact Wexp].
   - (* internal *)
     destruct (throttled h (c_addr cn) ACT_INTERNAL); [exact Wexp|].
     destruct (negb (N.eqb tok 0)).
@@ -1441,7 +1443,6 @@ Proof.
     - split; [assumption|]. destruct (get_sess hh x) as [s0|]; [|discriminate]. cbn in Hq. apply core_some_eq in Hq as (Hq & _ & _).
       exists s0. split; [reflexivity|congruence]. }
   destruct (is_virtual (s_kind s)); [cbn [fst]; auto|].
-  destruct (s_conn s); [|cbn [fst]; auto].
   destruct (send_session h2 m (SRoom 0)) as [h3 o2] eqn:H3. pose proof (fst_eq _ _ _ H3) as E3. cbn [fst].
   pose proof (equiv_send_session h2 m (SRoom 0) eq_refl) as Eq. rewrite <- E3 in Eq.
   split; [eapply wf_equiv; eauto|]. split.
@@ -1803,7 +1804,15 @@ Proof.
             WFg none2 none1 (fst (with_session h c f))).
   { intros c f Hf. unfold with_session. destruct (aget (h_conns h) c) as [cn|] eqn:Hc; [|exact W].
     destruct (c_sess cn) as [sid|]; [|exact W]. destruct (get_sess h sid) as [s|] eqn:Hs; [|exact W]. eauto. }
-  destruct o as [c addr|c hl|c rn rs rep|c to tag|c to tag|c|c|secs|b signas room q|c q|c to mk stream media|tok ok|c kindn key val|pos]; cbn [step].
+  destruct o as [c addr|c hl|c rn rs rep|c to tag|c to tag|c|c|secs|b signas room q|c q|c to mk stream media|tok ok|c kindn key val|pos|c hl late]; cbn [step].
+  15:{ (* a hello whose connection is closed while it is processed *)
+    destruct (aget (h_conns h) c) as [cn|] eqn:Hc; [|exact W]. destruct (c_sess cn) eqn:Hcs; [exact W|].
+    destruct hl as [b u rej|b u t|b tok f d|i]; try exact W.
+    - destruct rej; [exact W|]. destruct (h_nb h <=? b); [exact W|].
+      match goal with |- context [close_conn ?hh c] => destruct (close_conn hh c) as [h2 o2] eqn:H2;
+        assert (W2 : WFg none2 none1 h2) by (rewrite (fst_eq _ _ _ H2); apply wf_close_conn; destruct late; [eapply wf_equiv; [apply equiv_nextsid|exact W]|exact W]) end.
+      exact W2.
+    - now apply wf_close_conn. }
   - destruct (aget (h_conns h) c); [exact W|]. cbn [fst]. now apply wf_set_conn_nosess.
   - destruct (aget (h_conns h) c) as [cn|] eqn:Hc; [|exact W]. destruct (c_sess cn) eqn:Hcs; [exact W|].
     apply wf_do_hello; [now apply wf_set_conn_nosess|]. hsimpl. apply aget_aset_same.
